@@ -138,10 +138,32 @@ def _prune_facts(keep, maxn=12):
 
 
 # ------------------------------------------------------------------ context ----
+_KEEP = None
+
+
+def keep_names():
+    """short names (`Type::method`, `module::function`) of every function some rule expectation mentions: calls to these stay calls
+    in normalised terms; calls to any other repo-local function are inlined (helper extraction / inlining does not change a term)"""
+    global _KEEP
+    if _KEEP is None:
+        import re
+        names = set()
+        rx = re.compile(r"([A-Za-z_][A-Za-z0-9_]*::[A-Za-z_][A-Za-z0-9_#]*)(?:<[^>()]*>)?\(")
+        for root, _d, fs in os.walk(os.path.join(VERIF, "rules")):
+            for f in fs:
+                if f.endswith(".py") or f.endswith(".json"):
+                    with open(os.path.join(root, f)) as fh:
+                        names.update(rx.findall(fh.read()))
+        _KEEP = names
+    return _KEEP
+
+
 class Ctx:
     """collects rule instances (obligations) of one property check"""
 
     def __init__(self, prop, P, tier, repo):
+        from .core import norm as _norm
+        _norm.set_default(P, keep_names())
         self.prop = prop
         self.P = P
         self.tier = tier
